@@ -9,6 +9,7 @@ import (
 	"runtime"
 	"sort"
 	"strconv"
+	"strings"
 	"sync"
 	"sync/atomic"
 	"testing"
@@ -435,6 +436,9 @@ func (s *Sim) TasksSince(n int) (count int, allLockWait bool) {
 	defer s.mu.Unlock()
 	allLockWait = true
 	for i := n; i < len(s.named); i++ {
+		if strings.HasPrefix(s.named[i].Name, "server/wrapped_http/") {
+			continue // a prove handler that happened to start meanwhile, not the scrape's goroutine
+		}
 		count++
 		if !(s.named[i].parked && s.named[i].lockWait) {
 			allLockWait = false
